@@ -11,6 +11,10 @@ use std::cmp::Ordering;
 
 #[derive(Clone, Debug)]
 pub struct Shape {
+    /// block family: Some((word blocks, candidate blocks, block length)): both strings are
+    /// sequences of blocks over 3 block types (all characters of different types different), so
+    /// longer strings with repeated stretches, rotations and unique markers are covered
+    pub blocks: Option<([u8; 5], [u8; 5], usize)>,
     /// exact-cutoff family: Some(k): the word has `word` pairwise different characters, the single
     /// candidate consists of the first k characters of the word followed by different fresh
     /// characters (so its ratio is exactly 2k/(a+b)); all characters assumed pairwise different
@@ -109,16 +113,16 @@ impl Prop for C18 {
                         continue;
                     }
                     for c in cutoffs(word, cands) {
-                        v.push(Shape { shared_prefix: None, wide: 0, word, cands: cands.clone(), n, cutoff_bits: c });
+                        v.push(Shape { blocks: None, shared_prefix: None, wide: 0, word, cands: cands.clone(), n, cutoff_bits: c });
                         // variants in which one string ends in a character that occupies two
                         // units (string length in units != number of characters)
                         if n >= 1 && total <= 6 {
                             if word > 0 {
-                                v.push(Shape { shared_prefix: None, wide: 1, word, cands: cands.clone(), n, cutoff_bits: c });
+                                v.push(Shape { blocks: None, shared_prefix: None, wide: 1, word, cands: cands.clone(), n, cutoff_bits: c });
                             }
                             for (j, l) in cands.iter().enumerate() {
                                 if *l > 0 {
-                                    v.push(Shape { shared_prefix: None, wide: 2 + j, word, cands: cands.clone(), n, cutoff_bits: c });
+                                    v.push(Shape { blocks: None, shared_prefix: None, wide: 2 + j, word, cands: cands.clone(), n, cutoff_bits: c });
                                 }
                             }
                         }
@@ -136,8 +140,23 @@ impl Prop for C18 {
                 for k in 0..=a.min(b) {
                     let r = ratio(k, a, b).to_bits();
                     for c in [r, r.saturating_sub(1), if ratio(k, a, b) < 1.0 { r + 1 } else { r }] {
-                        v.push(Shape { shared_prefix: Some(k), wide: 0, word: a, cands: vec![b], n: 1, cutoff_bits: c });
+                        v.push(Shape { blocks: None, shared_prefix: Some(k), wide: 0, word: a, cands: vec![b], n: 1, cutoff_bits: c });
                     }
+                }
+            }
+        }
+        // block-structured strings of up to 4 blocks of 4 (3 / 4) characters: 13..16 characters a side
+        for l in block_layouts(4, 4) {
+            if let Layout::Blocks { old, new, blen } = l {
+                let (a, b) = layout_lens(&l, 0, 0);
+                if a < 8 || b < 8 {
+                    continue;
+                }
+                if tier == Tier::Quick && (old.iter().filter(|x| **x != 255).count() + new.iter().filter(|x| **x != 255).count()) % 2 == 1 {
+                    continue;
+                }
+                for c in [0.0f32.to_bits(), 0.5f32.to_bits()] {
+                    v.push(Shape { blocks: Some((old, new, blen)), shared_prefix: None, wide: 0, word: a, cands: vec![b], n: 1, cutoff_bits: c });
                 }
             }
         }
@@ -161,8 +180,20 @@ impl Prop for C18 {
             }
             v
         };
-        let word: Vec<Sym> = mk(s.word, s.wide == 1);
-        let mut cands: Vec<Vec<Sym>> = s.cands.iter().enumerate().map(|(j, &l)| mk(l, s.wide == 2 + j)).collect();
+        let mut word: Vec<Sym> = if s.blocks.is_some() { vec![] } else { mk(s.word, s.wide == 1) };
+        let mut cands: Vec<Vec<Sym>> = if s.blocks.is_some() { vec![vec![]] } else { s.cands.iter().enumerate().map(|(j, &l)| mk(l, s.wide == 2 + j)).collect() };
+        if let Some((wb, cb, blen)) = s.blocks {
+            let pool: Vec<Vec<Sym>> = (0..3).map(|t| (0..block_type_len(t, blen)).map(|_| symtxt::fresh_char(Class::Ord)).collect()).collect();
+            let ids: Vec<u32> = pool.iter().flatten().map(|x| x.0).collect();
+            engine::assume(&F::Distinct(ids.clone()));
+            for id in ids {
+                engine::set_hash_class(id, id as u64);
+            }
+            let build = |bs: &[u8; 5]| -> Vec<Sym> { bs.iter().filter(|b| **b != 255).flat_map(|b| pool[*b as usize].iter().copied()).collect() };
+            word = build(&wb);
+            cands[0] = build(&cb);
+            engine::witness("block_structured_string_paths");
+        }
         if let Some(k) = s.shared_prefix {
             // candidate 0 = first k characters of the word + fresh ones; everything else pairwise different
             let fresh: Vec<Sym> = cands[0][k..].to_vec();
@@ -234,10 +265,22 @@ impl Prop for C18 {
         (s.word + s.cands.iter().sum::<usize>()) as u64
     }
     fn shape_json(&self, s: &Shape) -> Value {
-        json!({"shared_prefix": s.shared_prefix, "wide_last_char_in": s.wide, "word_len": s.word, "candidate_lens": s.cands, "n": s.n, "cutoff_bits": s.cutoff_bits, "cutoff": f32::from_bits(s.cutoff_bits)})
+        json!({"blocks": s.blocks.map(|(a, b, l)| json!({"word": a.to_vec(), "candidate": b.to_vec(), "blen": l})), "shared_prefix": s.shared_prefix, "wide_last_char_in": s.wide, "word_len": s.word, "candidate_lens": s.cands, "n": s.n, "cutoff_bits": s.cutoff_bits, "cutoff": f32::from_bits(s.cutoff_bits)})
     }
     fn shape_from(&self, v: &Value) -> Shape {
         Shape {
+            blocks: if v["blocks"].is_object() {
+                let arr = |k: &str| -> [u8; 5] {
+                    let mut a = [255u8; 5];
+                    for (i, x) in v["blocks"][k].as_array().unwrap().iter().enumerate() {
+                        a[i] = x.as_u64().unwrap() as u8;
+                    }
+                    a
+                };
+                Some((arr("word"), arr("candidate"), v["blocks"]["blen"].as_u64().unwrap() as usize))
+            } else {
+                None
+            },
             shared_prefix: v["shared_prefix"].as_u64().map(|x| x as usize),
             wide: v["wide_last_char_in"].as_u64().unwrap_or(0) as usize,
             word: v["word_len"].as_u64().unwrap() as usize,
@@ -260,10 +303,10 @@ impl Prop for C18 {
                 "similar::TextDiff::{from_slices, ratio}, similar::get_diff_ratio, capture_diff_deadline(Myers) + IdentifyDistinct not reached (<100 tokens)",
                 "Ord/Eq/Hash of the string type (SymTxt, decided by z3)",
             ],
-            bounds: format!("word of 0..={l} characters, 0..={c} candidates of 0..={l} characters each (empty and duplicate candidates included; all characters symbolic; for up to 6 characters in total also variants in which the last character of the word or of one candidate occupies two units, so that string length and character count differ), n in 0..=3 (at most {t} characters in word and candidates together), plus a family of longer strings (word of up to 14 / 30 pairwise different characters, one candidate sharing exactly its first k characters, cutoff = the candidate's ratio 2k/(a+b) and one ulp below / above); cutoff in the finite set of f32 values at which the result can change: every attainable ratio 2k/(a+b), each also one ulp below and above, plus 0, 0.5 and 1", l = match tier { Tier::Quick => 3, Tier::Thorough => 3 }, c = match tier { Tier::Quick => 2, Tier::Thorough => 3 }, t = match tier { Tier::Quick => 7, Tier::Thorough => 9 }),
+            bounds: format!("word of 0..={l} characters, 0..={c} candidates of 0..={l} characters each (empty and duplicate candidates included; all characters symbolic; for up to 6 characters in total also variants in which the last character of the word or of one candidate occupies two units, so that string length and character count differ), n in 0..=3 (at most {t} characters in word and candidates together), plus block-structured strings (up to 4 blocks of 4 / 3 / 4 characters a side over 3 block types, i.e. up to 16 characters with repeated stretches, rotations and unique markers; cutoffs 0 and 0.5) and a family of longer strings (word of up to 14 / 30 pairwise different characters, one candidate sharing exactly its first k characters, cutoff = the candidate's ratio 2k/(a+b) and one ulp below / above); cutoff in the finite set of f32 values at which the result can change: every attainable ratio 2k/(a+b), each also one ulp below and above, plus 0, 0.5 and 1", l = match tier { Tier::Quick => 3, Tier::Thorough => 3 }, c = match tier { Tier::Quick => 2, Tier::Thorough => 3 }, t = match tier { Tier::Quick => 7, Tier::Thorough => 9 }),
             outside: "longer words / more candidates; cutoffs outside [0,1]; NaN; the f32 quantisation regime of very long strings; str/[u8] tokenize_chars (C06)".into(),
             assumptions: vec!["the reference ranking is computed by the harness from a solver-decided LCS and the same f32 formula".into(), "among candidates with equal content the order is unspecified: entries are compared by content, and each returned reference must be a distinct candidate passed in".into()],
-            required_witnesses: vec!["exact_cutoff_family_paths", "paths_with_a_candidate_below_the_cutoff", "paths_with_two_or_more_matches", "paths_with_a_ratio_tie", "paths_with_a_ratio_exactly_at_the_cutoff", "paths_truncated_by_n"],
+            required_witnesses: vec!["block_structured_string_paths", "exact_cutoff_family_paths", "paths_with_a_candidate_below_the_cutoff", "paths_with_two_or_more_matches", "paths_with_a_ratio_tie", "paths_with_a_ratio_exactly_at_the_cutoff", "paths_truncated_by_n"],
             rule: "one state = one explored path (equality/order pattern of all characters) for one (lengths, n, cutoff) shape".into(),
         }
     }
